@@ -12,6 +12,7 @@ use std::rc::Rc;
 use std::borrow::Borrow;
 use std::hash::{BuildHasher, Hash};
 use std::ptr::NonNull;
+use vstd::std_specs::iter::IteratorSpec;
 
 pub type KeyId = int;
 pub uninterp spec fn kid<Q: ?Sized>(q: &Q) -> KeyId;
@@ -265,6 +266,79 @@ impl<K> Deques<K> {
             old(entry).wo().is_none() ==> final(deq)@ == old(deq)@,
             old(entry).wo().is_some() ==> final(deq)@ == old(deq)@.remove(index_of_id(old(deq)@, old(entry).wo().unwrap())),
     { unimplemented!() }
+}
+
+
+#[verifier::external_type_specification]
+#[verifier::external_body]
+#[verifier::accept_recursive_types(T)]
+pub struct ExNonNull<T: std::marker::PointeeSized>(NonNull<T>);
+
+pub uninterp spec fn nid<T>(p: NonNull<T>) -> int;
+/// FROZEN HEAP: sound only for immutable node fields (key, hash) of nodes that are still linked, and for
+/// `next` while the list is not mutated. Instantiated once per function body, on the entry state.
+pub uninterp spec fn heap_deref<T>(p: NonNull<T>) -> T;
+pub uninterp spec fn heap_next(id: int) -> Option<int>;
+pub uninterp spec fn ptr_reads<T: std::marker::PointeeSized>(p: &NonNull<T>, r: &T) -> bool;
+pub assume_specification<T, 'a> [std::ptr::NonNull::<T>::as_ref] (p: &std::ptr::NonNull<T>) -> (r: &'a T)
+    where T: std::marker::PointeeSized
+    ensures ptr_reads(p, r);
+pub broadcast axiom fn axiom_ptr_reads<T>(p: &NonNull<T>, r: &T)
+    ensures #[trigger] ptr_reads(p, r) ==> *r == heap_deref(*p);
+pub uninterp spec fn rc_reads<T: std::marker::MetaSized + ?Sized, A: std::alloc::Allocator>(rc: &std::rc::Rc<T, A>, r: &T) -> bool;
+pub assume_specification<T, A> [<std::rc::Rc<T, A> as std::convert::AsRef<T>>::as_ref] (rc: &std::rc::Rc<T, A>) -> (r: &T)
+    where A: std::alloc::Allocator, T: std::marker::MetaSized + ?Sized
+    ensures rc_reads(rc, r);
+pub broadcast axiom fn axiom_rc_reads<T>(rc: &Rc<T>, r: &T)
+    ensures #[trigger] rc_reads(rc, r) ==> *r == **rc;
+
+impl<T> Deque<T> {
+    #[verifier::external_body]
+    pub fn peek_front_ptr(&self) -> (r: Option<NonNull<DeqNode<T>>>)
+        ensures match r { Some(p) => self@.len() > 0 && nid(p) == self@[0].id, None => self@.len() == 0 }
+    { unimplemented!() }
+}
+impl<T> DeqNode<T> {
+    #[verifier::external_body]
+    pub fn next_node_ptr(this: NonNull<Self>) -> (r: Option<NonNull<DeqNode<T>>>)
+        ensures match r { Some(p) => heap_next(nid(this)) == Some(nid(p)), None => heap_next(nid(this)).is_none() }
+    { unimplemented!() }
+}
+pub open spec fn frozen<K>(s: Seq<N>) -> bool {
+    forall|p: NonNull<DeqNode<KeyHashDate<K>>>, i: int| 0 <= i < s.len() && nid(p) == (#[trigger] s[i]).id ==> {
+        &&& kid_rc(#[trigger] heap_deref(p).element.key) == s[i].key
+        &&& heap_deref(p).element.hash == s[i].hash
+        &&& heap_next(nid(p)) == (if i + 1 < s.len() { Some(s[i + 1].id) } else { None::<int> })
+    }
+}
+pub axiom fn axiom_frozen<K>(d: &Deque<KeyHashDate<K>>) ensures frozen::<K>(d@);
+
+#[verifier::external_body]
+#[verifier::reject_recursive_types(K)]
+#[verifier::reject_recursive_types(V)]
+pub struct Weigher<K, V> { k: std::marker::PhantomData<(K,V)> }
+pub uninterp spec fn wspec<K, V>(w: Option<Weigher<K, V>>, key: KeyId, value: V) -> u32;
+#[verifier::external_body]
+pub fn weigh<K, V>(weigher: &mut Option<Weigher<K, V>>, key: &K, value: &V) -> (r: u32)
+    ensures r == wspec(*old(weigher), kid(key), *value), *final(weigher) == *old(weigher),
+{ unimplemented!() }
+
+pub trait Array { type Item; }
+impl<T, const N: usize> Array for [T; N] { type Item = T; }
+#[verifier::reject_recursive_types(A)]
+pub struct SmallVec<A: Array> { pub v: Vec<A::Item> }
+impl<A: Array> Default for SmallVec<A> {
+    fn default() -> (r: Self) ensures r.v@.len() == 0 { SmallVec { v: Vec::new() } }
+}
+impl<A: Array> SmallVec<A> {
+    pub fn push(&mut self, x: A::Item) ensures final(self).v@ == old(self).v@.push(x) { self.v.push(x) }
+}
+impl<A: Array> IntoIterator for SmallVec<A> {
+    type Item = A::Item;
+    type IntoIter = std::vec::IntoIter<A::Item>;
+    fn into_iter(self) -> (r: Self::IntoIter)
+        ensures r.remaining() == self.v@, r.decrease() is Some, r.obeys_prophetic_iter_laws(),
+    { self.v.into_iter() }
 }
 
 #[verifier::external_body]
@@ -596,6 +670,133 @@ pub proof fn lemma_wsum_reweigh<K, V>(s: Seq<N>, m: Map<KeyId, ValueEntry<K, V>>
     }
     lemma_wsum_insert_unrelated(r, m, k, e);
 }
+
+pub open spec fn fsum(s: Seq<N>, sk: FrequencySketch) -> int
+    decreases s.len()
+{ if s.len() == 0 { 0 } else { fsum(s.drop_last(), sk) + sk.freq(s.last().hash) as int } }
+/// stored weights agree with the (pure) weigher
+pub open spec fn w_wf<K, V>(m: Map<KeyId, ValueEntry<K, V>>, weigher: Option<Weigher<K, V>>) -> bool {
+    forall|k: KeyId| #[trigger] m.contains_key(k) ==> m[k].w() == wspec(weigher, k, m[k].value)
+}
+
+/// adding a fresh entry (key not in the lists) with its new nodes at the back keeps the structure
+pub proof fn lemma_push_new<K, V>(m: Map<KeyId, ValueEntry<K, V>>, p: Seq<N>, wo: Seq<N>, ttl: bool, k: KeyId, e: ValueEntry<K, V>, hash: u64)
+    requires
+        core_wf(m.remove(k), p, wo, ttl),
+        e.ao().is_some(), !has_id(p, e.ao().unwrap()),
+        ttl ==> e.wo().is_some() && !has_id(wo, e.wo().unwrap()),
+        !ttl ==> e.wo().is_none(),
+    ensures
+        core_wf(m.insert(k, e), p.push(N { id: e.ao().unwrap(), key: k, hash: hash }),
+            if ttl { wo.push(N { id: e.wo().unwrap(), key: k, hash: 0 }) } else { wo }, ttl),
+        wsum(p.push(N { id: e.ao().unwrap(), key: k, hash: hash }), m.insert(k, e)) == wsum(p, m.remove(k)) + e.w(),
+{
+    let m0 = m.remove(k);
+    let m2 = m.insert(k, e);
+    let nn = N { id: e.ao().unwrap(), key: k, hash: hash };
+    let p2 = p.push(nn);
+    assert forall|i: int| 0 <= i < p.len() implies (#[trigger] p[i]).key != k && p[i].id != nn.id by {
+        assert(m0.contains_key(p[i].key));
+    }
+    assert forall|a: int, b: int| 0 <= a < b < p2.len() implies (#[trigger] p2[a]).id != (#[trigger] p2[b]).id && p2[a].key != p2[b].key by {
+        if b < p.len() { assert(p2[a] == p[a]); assert(p2[b] == p[b]); } else { assert(p2[a] == p[a]); }
+    }
+    assert forall|a: int| 0 <= a < p2.len() implies m2.contains_key((#[trigger] p2[a]).key) && m2[p2[a].key].ao() == Some(p2[a].id) by {
+        if a < p.len() { assert(p2[a] == p[a]); assert(m0.contains_key(p[a].key)); }
+    }
+    assert forall|kk: KeyId| #[trigger] m2.contains_key(kk) implies exists|a: int| 0 <= a < p2.len() && (#[trigger] p2[a]).key == kk by {
+        if kk == k { assert(p2[p.len() as int].key == k); } else {
+            assert(m0.contains_key(kk));
+            let a = choose|a: int| 0 <= a < p.len() && (#[trigger] p[a]).key == kk;
+            assert(p2[a] == p[a]);
+        }
+    }
+    assert forall|kk: KeyId| #[trigger] m2.contains_key(kk) implies (m2[kk].wo().is_some() <==> ttl) by {
+        if kk != k { assert(m0.contains_key(kk)); }
+    }
+    if ttl {
+        let wn = N { id: e.wo().unwrap(), key: k, hash: 0 };
+        let w2 = wo.push(wn);
+        assert forall|i: int| 0 <= i < wo.len() implies (#[trigger] wo[i]).key != k && wo[i].id != wn.id by { assert(m0.contains_key(wo[i].key)); }
+        assert forall|a: int, b: int| 0 <= a < b < w2.len() implies (#[trigger] w2[a]).id != (#[trigger] w2[b]).id && w2[a].key != w2[b].key by {
+            if b < wo.len() { assert(w2[a] == wo[a]); assert(w2[b] == wo[b]); } else { assert(w2[a] == wo[a]); }
+        }
+        assert forall|a: int| 0 <= a < w2.len() implies m2.contains_key((#[trigger] w2[a]).key) && m2[w2[a].key].wo() == Some(w2[a].id) by {
+            if a < wo.len() { assert(w2[a] == wo[a]); assert(m0.contains_key(wo[a].key)); }
+        }
+        assert forall|kk: KeyId| #[trigger] m2.contains_key(kk) && ttl implies exists|a: int| 0 <= a < w2.len() && (#[trigger] w2[a]).key == kk by {
+            if kk == k { assert(w2[wo.len() as int].key == k); } else {
+                assert(m0.contains_key(kk));
+                let a = choose|a: int| 0 <= a < wo.len() && (#[trigger] wo[a]).key == kk;
+                assert(w2[a] == wo[a]);
+            }
+        }
+    } else {
+        assert forall|a: int| 0 <= a < wo.len() implies m2.contains_key((#[trigger] wo[a]).key) && m2[wo[a].key].wo() == Some(wo[a].id) by {
+            assert(m0.contains_key(wo[a].key)); assert(m0[wo[a].key].wo().is_some());
+        }
+    }
+    lemma_wsum_push(p, m2, nn);
+    lemma_wsum_insert_unrelated(p, m0, k, e);
+    assert(m0.insert(k, e) =~= m2);
+}
+
+/// m without the keys of the first j list nodes
+pub open spec fn rem<K, V>(m: Map<KeyId, ValueEntry<K, V>>, p: Seq<N>, j: int) -> Map<KeyId, ValueEntry<K, V>>
+    decreases j
+{ if j <= 0 { m } else { rem(m, p, j - 1).remove(p[j - 1].key) } }
+
+pub proof fn lemma_rem_props<K, V>(m: Map<KeyId, ValueEntry<K, V>>, p: Seq<N>, j: int)
+    requires 0 <= j <= p.len()
+    ensures
+        forall|k: KeyId| #[trigger] rem(m, p, j).contains_key(k) ==> m.contains_key(k) && rem(m, p, j)[k] == m[k],
+        forall|k: KeyId| #[trigger] m.contains_key(k) && (forall|i: int| 0 <= i < j ==> (#[trigger] p[i]).key != k) ==> rem(m, p, j).contains_key(k),
+        forall|i: int| 0 <= i < j ==> !rem(m, p, j).contains_key((#[trigger] p[i]).key),
+    decreases j
+{
+    if j > 0 {
+        lemma_rem_props(m, p, j - 1);
+        let r0 = rem(m, p, j - 1); let r1 = rem(m, p, j);
+        assert(r1 == r0.remove(p[j - 1].key));
+        assert forall|k: KeyId| #[trigger] r1.contains_key(k) implies m.contains_key(k) && r1[k] == m[k] by { assert(r0.contains_key(k)); }
+        assert forall|k: KeyId| #[trigger] m.contains_key(k) && (forall|i: int| 0 <= i < j ==> (#[trigger] p[i]).key != k) implies r1.contains_key(k) by {
+            assert(forall|i: int| 0 <= i < j - 1 ==> (#[trigger] p[i]).key != k);
+            assert(p[j - 1].key != k);
+            assert(r0.contains_key(k));
+        }
+        assert forall|i: int| 0 <= i < j implies !r1.contains_key((#[trigger] p[i]).key) by {
+            if i < j - 1 { assert(!r0.contains_key(p[i].key)); }
+        }
+    }
+}
+
+pub proof fn lemma_wsum_same_entries<K, V>(s: Seq<N>, m1: Map<KeyId, ValueEntry<K, V>>, m2: Map<KeyId, ValueEntry<K, V>>)
+    requires forall|i: int| 0 <= i < s.len() ==> m1[(#[trigger] s[i]).key].w() == m2[s[i].key].w()
+    ensures wsum(s, m1) == wsum(s, m2)
+    decreases s.len()
+{
+    if s.len() > 0 { lemma_wsum_same_entries(s.drop_last(), m1, m2); assert(s.last() == s[s.len() - 1]); }
+}
+
+/// weight that remains after dropping the first n nodes and their entries
+pub proof fn lemma_wsum_after_victims<K, V>(m: Map<KeyId, ValueEntry<K, V>>, p: Seq<N>, n: int)
+    requires 0 <= n <= p.len(),
+        forall|a: int, b: int| 0 <= a < b < p.len() ==> (#[trigger] p[a]).key != (#[trigger] p[b]).key,
+        forall|i: int| 0 <= i < p.len() ==> m.contains_key((#[trigger] p[i]).key),
+    ensures wsum(p.skip(n), rem(m, p, n)) == wsum(p, m) - wsum(p.take(n), m)
+{
+    lemma_wsum_add(p.take(n), p.skip(n), m);
+    assert(p.take(n) + p.skip(n) =~= p);
+    lemma_rem_props(m, p, n);
+    let s = p.skip(n);
+    assert forall|i: int| 0 <= i < s.len() implies rem(m, p, n)[(#[trigger] s[i]).key].w() == m[s[i].key].w() by {
+        assert(s[i] == p[i + n]);
+        assert forall|a: int| 0 <= a < n implies (#[trigger] p[a]).key != s[i].key by { assert(p[a].key != p[i + n].key); }
+        assert(m.contains_key(s[i].key));
+        assert(rem(m, p, n).contains_key(s[i].key));
+    }
+    lemma_wsum_same_entries(s, rem(m, p, n), m);
+}
 } // mod cspec
 pub mod code {
 use vstd::prelude::*;
@@ -605,7 +806,60 @@ use std::borrow::Borrow;
 use std::hash::{BuildHasher, Hash};
 use super::env::*;
 use super::cspec::*;
-broadcast use {axiom_kid_rc, axiom_dur_nonneg};
+broadcast use {axiom_kid_rc, axiom_dur_nonneg, axiom_ptr_reads, axiom_rc_reads};
+const EVICTION_BATCH_SIZE: usize = 100;
+use std::ptr::NonNull;
+use vstd::std_specs::iter::IteratorSpec;
+
+#[derive(Default)]
+pub struct EntrySizeAndFrequency {
+    pub weight: u64,
+    pub freq: u32,
+}
+
+pub assume_specification [<EntrySizeAndFrequency as Default>::default] () -> (r: EntrySizeAndFrequency)
+    ensures r.weight == 0, r.freq == 0;
+
+impl EntrySizeAndFrequency {
+    fn new(policy_weight: u64) -> (r: Self)
+        ensures r.weight == policy_weight, r.freq == 0
+    {
+        Self {
+            weight: policy_weight,
+            ..Default::default()
+        }
+    }
+
+    fn add_policy_weight<K, V>(&mut self, key: &K, value: &V, weigher: &mut Option<Weigher<K, V>>)
+        requires old(self).weight + u32::MAX <= u64::MAX,
+        ensures final(self).weight == old(self).weight + wspec(*old(weigher), kid(key), *value), final(self).freq == old(self).freq,
+            *final(weigher) == *old(weigher),
+    {
+        self.weight += weigh(weigher, key, value) as u64;
+    }
+
+    fn add_frequency(&mut self, freq: &FrequencySketch, hash: u64)
+        requires old(self).freq + 15 <= u32::MAX,
+        ensures final(self).freq == old(self).freq + freq.freq(hash), final(self).freq <= old(self).freq + 15, final(self).weight == old(self).weight,
+    {
+        self.freq += freq.frequency(hash) as u32;
+    }
+}
+
+// Access-Order Queue Node
+type AoqNode<K> = NonNull<DeqNode<KeyHashDate<K>>>;
+
+#[verifier::reject_recursive_types(K)]
+pub enum AdmissionResult<K> {
+    Admitted {
+        victim_nodes: SmallVec<[AoqNode<K>; 8]>,
+        victims_weight: u64,
+    },
+    Rejected,
+}
+
+
+pub open spec fn ptr_ids<K>(v: Seq<AoqNode<K>>) -> Seq<int> { v.map_values(|p: AoqNode<K>| nid(p)) }
 
 #[verifier::reject_recursive_types(K)]
 #[verifier::reject_recursive_types(V)]
@@ -616,6 +870,7 @@ pub struct Cache<K, V, S> {
     pub weighted_size: u64,
     pub cache: CacheStore<K, V, S>,
     pub build_hasher: S,
+    pub weigher: Option<Weigher<K, V>>,
     pub deques: Deques<K>,
     pub frequency_sketch: FrequencySketch,
     pub frequency_sketch_enabled: bool,
@@ -659,14 +914,120 @@ where
             final(self).frequency_sketch == old(self).frequency_sketch, final(self).frequency_sketch_enabled == old(self).frequency_sketch_enabled,
             // only removes entries; survivors are untouched
             forall|k: KeyId| #[trigger] final(self).cache@.contains_key(k) ==> old(self).cache@.contains_key(k) && final(self).cache@[k] == old(self).cache@[k],
+            final(self).weigher == old(self).weigher, final(self).deques.probation@.len() <= old(self).deques.probation@.len(),
     { unimplemented!() }
-    #[verifier::external_body]
+    pub open spec fn sp_weights_to_evict(&self) -> int {
+        match self.max_capacity { Some(l) => if self.weighted_size > l { self.weighted_size - l } else { 0 }, None => 0 }
+    }
+
+    fn weights_to_evict(&self) -> (r: u64)
+        ensures r == self.sp_weights_to_evict()
+    {
+        self.max_capacity
+            .map(|limit| -> (x: u64) ensures x == if self.weighted_size > limit { (self.weighted_size - limit) as u64 } else { 0 } { self.weighted_size.saturating_sub(limit) })
+            .unwrap_or_default()
+    }
+
+    #[inline]
     fn evict_lru_entries(&mut self)
-        requires old(self).wf(),
+        requires old(self).wf(), old(self).small(),
         ensures final(self).wf(), final(self).same_cfg(old(self)),
             final(self).frequency_sketch == old(self).frequency_sketch, final(self).frequency_sketch_enabled == old(self).frequency_sketch_enabled,
             forall|k: KeyId| #[trigger] final(self).cache@.contains_key(k) ==> old(self).cache@.contains_key(k) && final(self).cache@[k] == old(self).cache@[k],
-    { unimplemented!() }
+            final(self).weigher == old(self).weigher, final(self).deques.probation@.len() <= old(self).deques.probation@.len(),
+            // C12: the removed entries are exactly a prefix of the recency order, and the shortest one that frees enough
+            ({
+                let n = old(self).deques.probation@.len() - final(self).deques.probation@.len();
+                let p0 = old(self).deques.probation@;
+                &&& final(self).deques.probation@ == p0.skip(n)
+                &&& final(self).cache@ == rem(old(self).cache@, p0, n)
+                &&& (n > 0 ==> wsum(p0.take(n - 1), old(self).cache@) < old(self).sp_weights_to_evict())
+                &&& (wsum(p0.take(n), old(self).cache@) >= old(self).sp_weights_to_evict() || n == 100 || n == p0.len())
+            }),
+            // C03: nothing to evict => nothing changes
+            old(self).sp_weights_to_evict() == 0 ==> final(self).cache@ == old(self).cache@ && final(self).deques.probation@ == old(self).deques.probation@,
+    {
+        const DEQ_NAME: &'static str = "probation";
+
+        let weights_to_evict = self.weights_to_evict();
+        let mut evicted_count = 0u64;
+        let mut evicted_policy_weight = 0u64;
+        let ghost m0 = self.cache@; let ghost p0 = self.deques.probation@; let ghost ttl = self.time_to_live.is_some();
+        proof { lemma_wsum_bound(p0, m0); lemma_wsum_nonneg(p0, m0); assert(p0.skip(0) =~= p0); assert(p0.take(0).len() == 0); }
+
+        {
+            let deqs = &mut self.deques;
+            let (probation, wo, cache) =
+                (&mut deqs.probation, &mut deqs.write_order, &mut self.cache);
+
+            for _ in it: 0..EVICTION_BATCH_SIZE
+                invariant_except_break
+                    evicted_count == it.index@,
+                invariant
+                    EVICTION_BATCH_SIZE == 100,
+                    core_wf(cache@, probation@, wo@, ttl),
+                    evicted_count <= p0.len(), evicted_count <= 100,
+                    probation@ == p0.skip(evicted_count as int),
+                    cache@ == rem(m0, p0, evicted_count as int),
+                    evicted_policy_weight == wsum(p0.take(evicted_count as int), m0),
+                    wsum(p0, m0) == wsum(probation@, cache@) + evicted_policy_weight,
+                    wsum(probation@, cache@) >= 0, wsum(p0, m0) <= p0.len() * 0xFFFF_FFFF, p0.len() < 0xFFFF_FFFF,
+                    evicted_count > 0 ==> wsum(p0.take(evicted_count - 1), m0) < weights_to_evict,
+                    core_wf(m0, p0, old(self).deques.write_order@, ttl),
+                ensures
+                    evicted_policy_weight >= weights_to_evict || evicted_count == 100 || evicted_count == p0.len(),
+            {
+                if evicted_policy_weight >= weights_to_evict {
+                    break;
+                }
+
+                // clippy::map_clone will give us a false positive warning here.
+                // Version: clippy 0.1.77 (f2048098a1c 2024-02-09) in Rust 1.77.0-beta.2
+                #[allow(clippy::map_clone)]
+                let key = probation
+                    .peek_front()
+                    .map(|node| -> (r: Rc<K>) ensures r == node.element.key { Rc::clone(&node.element.key) });
+
+                if key.is_none() {
+                    break;
+                }
+                let key = key.unwrap();
+                proof {
+                    let j = evicted_count as int;
+                    lemma_remove_at(cache@, probation@, wo@, ttl, 0);
+                    lemma_wsum_nonneg(probation@.remove(0), cache@.remove(probation@[0].key));
+                    assert(probation@[0] == p0[j]);
+                    assert(probation@.remove(0) =~= p0.skip(j + 1));
+                    assert(rem(m0, p0, j + 1) == rem(m0, p0, j).remove(p0[j].key));
+                    assert(p0.take(j + 1).drop_last() =~= p0.take(j));
+                    assert(p0.take(j + 1).last() == p0[j]);
+                    lemma_rem_props(m0, p0, j);
+                    assert(m0.contains_key(p0[j].key));
+                    assert forall|i: int| 0 <= i < j implies (#[trigger] p0[i]).key != p0[j].key by {}
+                    assert(rem(m0, p0, j)[p0[j].key] == m0[p0[j].key]);
+                }
+
+                if let Some(mut entry) = cache.remove(&key) {
+                    let weight = entry.policy_weight();
+                    Deques::unlink_ao_from_deque(DEQ_NAME, probation, &mut entry);
+                    Deques::unlink_wo(wo, &mut entry);
+                    evicted_count += 1;
+                    evicted_policy_weight = evicted_policy_weight.saturating_add(weight as u64);
+                } else {
+                    probation.pop_front();
+                }
+            }
+        }
+
+        proof {
+            lemma_wsum_nonneg(self.deques.probation@, self.cache@); lemma_rem_props(m0, p0, evicted_count as int);
+            if evicted_count > 0 { lemma_wsum_nonneg(p0.take(evicted_count - 1), m0); }
+            assert(p0.skip(0) =~= p0);
+        }
+        self.entry_count -= evicted_count;
+        self.saturating_sub_from_total_weight(evicted_policy_weight);
+    }
+
     pub open spec fn sp_hash<Q: ?Sized>(&self, key: &Q) -> u64 { hspec(self.build_hasher, kid(key)) }
     #[verifier::external_body]
     fn hash<Q>(&self, key: &Q) -> (r: u64)
@@ -737,7 +1098,7 @@ where
     where
         Rc<K>: Borrow<Q>,
         Q: Hash + Eq + ?Sized,
-        requires old(self).wf(),
+        requires old(self).wf(), old(self).small(),
         ensures final(self).wf(), final(self).same_cfg(old(self)),
             // C15/C14: never feeds the estimator
             final(self).frequency_sketch == old(self).frequency_sketch,
@@ -767,7 +1128,7 @@ where
     where
         Rc<K>: Borrow<Q>,
         Q: Hash + Eq + ?Sized,
-        requires old(self).wf(),
+        requires old(self).wf(), old(self).small(),
         ensures final(self).wf(), final(self).same_cfg(old(self)),
             // C14: exactly one recording, hit or miss
             final(self).frequency_sketch == old(self).frequency_sketch.incremented(old(self).sp_hash(key)),
@@ -832,7 +1193,7 @@ where
     where
         Rc<K>: Borrow<Q>,
         Q: Hash + Eq + ?Sized,
-        requires old(self).wf(),
+        requires old(self).wf(), old(self).small(),
         ensures final(self).wf(), final(self).same_cfg(old(self)),
             final(self).frequency_sketch == old(self).frequency_sketch,
             // C07: gone ...
@@ -873,7 +1234,7 @@ where
         ensures final(self).weighted_size == if old(self).weighted_size + weight <= u64::MAX { (old(self).weighted_size + weight) as u64 } else { u64::MAX },
             final(self).same_cfg(old(self)), final(self).entry_count == old(self).entry_count,
             final(self).cache == old(self).cache, final(self).deques == old(self).deques,
-            final(self).frequency_sketch_enabled == old(self).frequency_sketch_enabled, final(self).frequency_sketch == old(self).frequency_sketch,
+            final(self).frequency_sketch_enabled == old(self).frequency_sketch_enabled, final(self).frequency_sketch == old(self).frequency_sketch, final(self).weigher == old(self).weigher,
     {
         let total = &mut self.weighted_size;
         *total = total.saturating_add(weight);
@@ -883,7 +1244,7 @@ where
         ensures final(self).weighted_size == if old(self).weighted_size >= weight { (old(self).weighted_size - weight) as u64 } else { 0 },
             final(self).same_cfg(old(self)), final(self).entry_count == old(self).entry_count,
             final(self).cache == old(self).cache, final(self).deques == old(self).deques,
-            final(self).frequency_sketch_enabled == old(self).frequency_sketch_enabled, final(self).frequency_sketch == old(self).frequency_sketch,
+            final(self).frequency_sketch_enabled == old(self).frequency_sketch_enabled, final(self).frequency_sketch == old(self).frequency_sketch, final(self).weigher == old(self).weigher,
     {
         let total = &mut self.weighted_size;
         *total = total.saturating_sub(weight);
@@ -964,6 +1325,442 @@ where
 
         self.saturating_sub_from_total_weight(old_policy_weight as u64);
         self.saturating_add_to_total_weight(policy_weight as u64);
+    }
+
+    #[inline]
+    fn admit(
+        candidate: &EntrySizeAndFrequency,
+        cache: &CacheStore<K, V, S>,
+        deqs: &Deques<K>,
+        freq: &FrequencySketch,
+        weigher: &mut Option<Weigher<K, V>>,
+    ) -> (r: AdmissionResult<K>)
+        requires
+            candidate.weight <= u32::MAX, candidate.freq <= 15,
+            forall|i: int| 0 <= i < deqs.probation@.len() ==> cache@.contains_key(#[trigger] deqs.probation@[i].key)
+                && cache@[deqs.probation@[i].key].w() == wspec(*old(weigher), deqs.probation@[i].key, cache@[deqs.probation@[i].key].value),
+        ensures
+            *final(weigher) == *old(weigher),
+            match r {
+                AdmissionResult::Admitted { victim_nodes, victims_weight } => {
+                    let n = victim_nodes.v@.len() as int;
+                    &&& 0 <= n <= deqs.probation@.len()
+                    &&& wsum(deqs.probation@.take(n), cache@) == victims_weight
+                    &&& victims_weight >= candidate.weight
+                    &&& (n > 0 ==> wsum(deqs.probation@.take(n - 1), cache@) < candidate.weight)
+                    &&& candidate.freq > fsum(deqs.probation@.take(n), *freq)
+                    &&& ptr_ids(victim_nodes.v@) == deqs.probation@.take(n).map_values(|x: N| x.id)
+                },
+                AdmissionResult::Rejected => true,
+            }
+    {
+        let mut victims = EntrySizeAndFrequency::default();
+        let mut victim_nodes = SmallVec::default();
+
+        // Get first potential victim at the LRU position.
+        let mut next_victim = deqs.probation.peek_front_ptr();
+
+        // Aggregate potential victims.
+        proof { axiom_frozen(&deqs.probation); }
+        while victims.weight < candidate.weight
+            invariant
+                candidate.weight <= u32::MAX, candidate.freq <= 15,
+                0 <= victim_nodes.v@.len() <= deqs.probation@.len(),
+                ptr_ids(victim_nodes.v@) == deqs.probation@.take(victim_nodes.v@.len() as int).map_values(|x: N| x.id),
+                match next_victim { Some(q) => victim_nodes.v@.len() < deqs.probation@.len() && nid(q) == deqs.probation@[victim_nodes.v@.len() as int].id, None => victim_nodes.v@.len() == deqs.probation@.len() },
+                victims.weight == wsum(deqs.probation@.take(victim_nodes.v@.len() as int), cache@),
+                victims.freq == fsum(deqs.probation@.take(victim_nodes.v@.len() as int), *freq),
+                victims.freq <= 30,
+                victim_nodes.v@.len() > 0 ==> wsum(deqs.probation@.take(victim_nodes.v@.len() - 1), cache@) < candidate.weight,
+                *weigher == *old(weigher),
+                forall|i: int| 0 <= i < deqs.probation@.len() ==> cache@.contains_key(#[trigger] deqs.probation@[i].key)
+                    && cache@[deqs.probation@[i].key].w() == wspec(*old(weigher), deqs.probation@[i].key, cache@[deqs.probation@[i].key].value),
+                frozen::<K>(deqs.probation@),
+            decreases deqs.probation@.len() - victim_nodes.v@.len(),
+        {
+            if candidate.freq < victims.freq {
+                break;
+            }
+            if let Some(victim) = next_victim.take() {
+                next_victim = DeqNode::next_node_ptr(victim);
+                let vic_elem = &unsafe { victim.as_ref() }.element;
+
+                let vic_entry = cache
+                    .get(&vic_elem.key)
+                    .expect("Cannot get an victim entry");
+                victims.add_policy_weight(vic_elem.key.as_ref(), &vic_entry.value, weigher);
+                victims.add_frequency(freq, vic_elem.hash);
+                victim_nodes.push(victim);
+                proof {
+                    let n = victim_nodes.v@.len() as int;
+                    let p = deqs.probation@;
+                    assert(p.take(n).drop_last() =~= p.take(n - 1));
+                    assert(p.take(n).last() == p[n - 1]);
+                    assert forall|i: int| 0 <= i < n implies ptr_ids(victim_nodes.v@)[i] == p.take(n).map_values(|x: N| x.id)[i] by {
+                        if i < n - 1 {
+                            assert(ptr_ids(victim_nodes.v@)[i] == ptr_ids(victim_nodes.v@.drop_last())[i]);
+                            assert(p.take(n - 1).map_values(|x: N| x.id)[i] == p[i].id);
+                        }
+                    }
+                    assert(ptr_ids(victim_nodes.v@) =~= p.take(n).map_values(|x: N| x.id));
+                }
+            } else {
+                // No more potential victims.
+                break;
+            }
+        }
+
+        // Admit or reject the candidate.
+
+        // TODO: Implement some randomness to mitigate hash DoS attack.
+        // See Caffeine's implementation.
+
+        if victims.weight >= candidate.weight && candidate.freq > victims.freq {
+            AdmissionResult::Admitted {
+                victim_nodes,
+                victims_weight: victims.weight,
+            }
+        } else {
+            AdmissionResult::Rejected
+        }
+    }
+
+    fn has_enough_capacity(&self, candidate_weight: u32, ws: u64) -> (r: bool)
+        requires ws + candidate_weight <= u64::MAX,
+        ensures r == match self.max_capacity { Some(limit) => ws + candidate_weight <= limit, None => true },
+    {
+        self.max_capacity
+            .map(|limit| -> (b: bool) ensures b == (ws + candidate_weight <= limit) { ws + candidate_weight as u64 <= limit })
+            .unwrap_or(true)
+    }
+
+    #[inline]
+    fn should_enable_frequency_sketch(&self) -> (r: bool)
+    {
+        if self.frequency_sketch_enabled {
+            false
+        } else if let Some(max_cap) = self.max_capacity {
+            self.weighted_size >= max_cap / 2
+        } else {
+            false
+        }
+    }
+
+    /// f64 arithmetic + `ensure_capacity`: only the sketch and its flag may change (sketch unit proves the rest)
+    #[verifier::external_body]
+    fn enable_frequency_sketch(&mut self)
+        ensures final(self).same_cfg(old(self)), final(self).cache == old(self).cache, final(self).deques == old(self).deques,
+            final(self).entry_count == old(self).entry_count, final(self).weighted_size == old(self).weighted_size, final(self).weigher == old(self).weigher,
+    { unimplemented!() }
+
+    /// state in the middle of `insert`: the candidate sits in the map without list nodes
+    pub open spec fn wf_except(&self, k: KeyId) -> bool {
+        &&& self.cfg_ok() && self.small()
+        &&& self.deques.window@.len() == 0 && self.deques.protected@.len() == 0
+        &&& self.cache@.contains_key(k) && self.cache@[k].ao().is_none() && self.cache@[k].wo().is_none()
+        &&& core_wf(self.cache@.remove(k), self.deques.probation@, self.deques.write_order@, self.time_to_live.is_some())
+        &&& ts_wf(self.cache@.remove(k), self.sp_has_expiry(), self.time_to_live.is_some())
+        &&& self.entry_count == self.deques.probation@.len()
+        &&& self.weighted_size == wsum(self.deques.probation@, self.cache@.remove(k))
+    }
+
+    #[inline]
+    fn handle_insert(
+        &mut self,
+        key: Rc<K>,
+        hash: u64,
+        policy_weight: u32,
+        timestamp: Option<Instant>,
+    )
+        requires
+            old(self).wf_except(kid_rc(key)),
+            old(self).cache@[kid_rc(key)].w() == policy_weight,
+            w_wf(old(self).cache@.remove(kid_rc(key)), old(self).weigher),
+            timestamp.is_some() == old(self).sp_has_expiry(),
+        ensures
+            final(self).wf(), final(self).same_cfg(old(self)),
+            // the candidate, if retained, keeps its value and weight and gets fresh timestamps (C01, C05, C06)
+            final(self).cache@.contains_key(kid_rc(key)) ==> {
+                &&& final(self).cache@[kid_rc(key)].value == old(self).cache@[kid_rc(key)].value
+                &&& final(self).cache@[kid_rc(key)].w() == policy_weight
+                &&& (old(self).sp_has_expiry() ==> final(self).cache@[kid_rc(key)].ta() == timestamp)
+                &&& (old(self).time_to_live.is_some() ==> final(self).cache@[kid_rc(key)].tm() == timestamp)
+            },
+            // residents are removed or untouched, never altered (C01)
+            forall|k: KeyId| #[trigger] final(self).cache@.contains_key(k) && k != kid_rc(key) ==> old(self).cache@.contains_key(k) && final(self).cache@[k] == old(self).cache@[k],
+            // C03: with room, the candidate is kept and nothing is evicted
+            (match old(self).max_capacity { Some(limit) => old(self).weighted_size + policy_weight <= limit, None => true }) ==> {
+                &&& final(self).cache@.dom() == old(self).cache@.dom()
+                &&& final(self).deques.probation@.len() == old(self).deques.probation@.len() + 1
+                &&& final(self).deques.probation@.take(old(self).deques.probation@.len() as int) == old(self).deques.probation@
+                &&& final(self).weighted_size == old(self).weighted_size + policy_weight
+            },
+            // C04: an oversized newcomer is never retained, and the total never grows past max(old, cap)
+            old(self).max_capacity.is_some() && policy_weight > old(self).max_capacity.unwrap() ==> !final(self).cache@.contains_key(kid_rc(key)),
+            old(self).max_capacity.is_some() ==> final(self).weighted_size <= old(self).weighted_size || final(self).weighted_size <= old(self).max_capacity.unwrap(),
+    {
+        let ghost k = kid_rc(key);
+        let ghost m0 = self.cache@; let ghost p0 = self.deques.probation@; let ghost wo0 = self.deques.write_order@; let ghost ttl = self.time_to_live.is_some();
+        proof { lemma_wsum_bound(p0, m0.remove(k)); lemma_wsum_nonneg(p0, m0.remove(k)); axiom_frozen(&self.deques.probation); }
+        let has_free_space = self.has_enough_capacity(policy_weight, self.weighted_size);
+        let (cache, deqs, freq) = (&mut self.cache, &mut self.deques, &self.frequency_sketch);
+
+        if has_free_space {
+            // Add the candidate to the deque.
+            let key = Rc::clone(&key);
+            let entry = cache.get_mut(&key).unwrap();
+            deqs.push_back_ao(
+                CacheRegion::MainProbation,
+                KeyHashDate::new(Rc::clone(&key), hash, timestamp),
+                entry,
+            );
+            if self.time_to_live.is_some() {
+                deqs.push_back_wo(KeyDate::new(key, timestamp), entry);
+            }
+            proof {
+                lemma_push_new(m0, p0, wo0, ttl, k, *entry, hash);
+                assert(m0.insert(k, *entry).dom() =~= m0.dom());
+                assert(deqs.probation@.take(p0.len() as int) =~= p0);
+            }
+            self.entry_count += 1;
+            self.saturating_add_to_total_weight(policy_weight as u64);
+
+            if self.should_enable_frequency_sketch() {
+                self.enable_frequency_sketch();
+            }
+
+            return;
+        }
+
+        if let Some(max) = self.max_capacity {
+            if policy_weight as u64 > max {
+                // The candidate is too big to fit in the cache. Reject it.
+                cache.remove(&Rc::clone(&key));
+                return;
+            }
+        }
+
+        let mut candidate = EntrySizeAndFrequency::new(policy_weight as u64);
+        candidate.add_frequency(freq, hash);
+
+        match Self::admit(&candidate, cache, deqs, freq, &mut self.weigher) {
+            AdmissionResult::Admitted {
+                victim_nodes,
+                victims_weight,
+            } => {
+                // Remove the victims from the cache (hash map) and deque.
+                let ghost vn = victim_nodes.v@;
+                let ghost ec0 = self.entry_count; let ghost ws0 = self.weighted_size;
+                proof {
+                    assert(cache@ == m0); assert(deqs.probation@ == p0);
+                    assert(rem(m0, p0, 0) == m0);
+                    assert(p0.skip(0) =~= p0);
+                    assert(m0.remove(k).remove(k) =~= m0.remove(k));
+                }
+                for victim in it: victim_nodes
+                    invariant
+                        it.snapshot@.remaining() == vn, vn.len() <= p0.len(), it.index@ <= vn.len(),
+                        ptr_ids(vn) == p0.take(vn.len() as int).map_values(|x: N| x.id),
+                        frozen::<K>(p0),
+                        ttl == self.time_to_live.is_some(), self.time_to_live == old(self).time_to_live, self.time_to_idle == old(self).time_to_idle, self.max_capacity == old(self).max_capacity, self.build_hasher == old(self).build_hasher,
+                        self.weighted_size == ws0, self.weigher == old(self).weigher,
+                        self.frequency_sketch_enabled == old(self).frequency_sketch_enabled,
+                        cache@ == rem(m0, p0, it.index@),
+                        cache@.contains_key(k), cache@[k] == m0[k],
+                        deqs.probation@ == p0.skip(it.index@), deqs.window@.len() == 0, deqs.protected@.len() == 0,
+                        core_wf(cache@.remove(k), deqs.probation@, deqs.write_order@, ttl),
+                        core_wf(m0.remove(k), p0, wo0, ttl),
+                        self.entry_count == p0.len() - it.index@,
+                {
+                    proof {
+                        let j = it.index@;
+                        assert(nid(victim) == ptr_ids(vn)[j]);
+                        assert(p0.take(vn.len() as int).map_values(|x: N| x.id)[j] == p0[j].id);
+                        assert(deqs.probation@[0] == p0[j]);
+                        lemma_remove_at(cache@.remove(k), deqs.probation@, deqs.write_order@, ttl, 0);
+                        assert(m0.remove(k).contains_key(p0[j].key));
+                        assert(cache@.remove(p0[j].key).remove(k) =~= cache@.remove(k).remove(p0[j].key));
+                        assert(deqs.probation@.remove(0) =~= p0.skip(j + 1));
+                        assert(rem(m0, p0, j + 1) == rem(m0, p0, j).remove(p0[j].key));
+                    }
+                    // Remove the victim from the hash map.
+                    let mut vic_entry = cache
+                        .remove(unsafe { &victim.as_ref().element.key })
+                        .expect("Cannot remove a victim from the hash map");
+                    // And then remove the victim from the deques.
+                    deqs.unlink_ao(&mut vic_entry);
+                    Deques::unlink_wo(&mut deqs.write_order, &mut vic_entry);
+                    self.entry_count -= 1;
+                }
+
+                // Add the candidate to the deque.
+                let ghost wo1 = deqs.write_order@;
+                let entry = cache.get_mut(&key).unwrap();
+                let key = Rc::clone(&key);
+                deqs.push_back_ao(
+                    CacheRegion::MainProbation,
+                    KeyHashDate::new(Rc::clone(&key), hash, timestamp),
+                    entry,
+                );
+                if self.time_to_live.is_some() {
+                    deqs.push_back_wo(KeyDate::new(key, timestamp), entry);
+                }
+                proof {
+                    let n = vn.len() as int;
+                    let m1 = rem(m0, p0, n);
+                    let p1 = p0.skip(n);
+                    lemma_rem_props(m0, p0, n);
+                    lemma_push_new(m1, p1, wo1, ttl, k, *entry, hash);
+                    // weights: ws0 == wsum(p0, m0 - k); victims_weight == wsum(take n, m0); remaining == difference
+                    assert forall|i: int| 0 <= i < p0.len() implies m0.remove(k).contains_key((#[trigger] p0[i]).key) by {}
+                    lemma_wsum_after_victims(m0.remove(k), p0, n);
+                    assert forall|i: int| 0 <= i < p0.take(n).len() implies m0[(#[trigger] p0.take(n)[i]).key].w() == m0.remove(k)[p0.take(n)[i].key].w() by {
+                        assert(p0.take(n)[i] == p0[i]); assert(m0.remove(k).contains_key(p0[i].key));
+                    }
+                    lemma_wsum_same_entries(p0.take(n), m0, m0.remove(k));
+                    // rem commutes with removing k
+                    lemma_rem_props(m0.remove(k), p0, n);
+                    assert forall|i: int| 0 <= i < p1.len() implies rem(m0.remove(k), p0, n)[(#[trigger] p1[i]).key].w() == m1.remove(k)[p1[i].key].w() by {
+                        assert(p1[i] == p0[i + n]);
+                        assert(m0.remove(k).contains_key(p0[i + n].key));
+                        assert forall|a: int| 0 <= a < n implies (#[trigger] p0[a]).key != p1[i].key by { assert(p0[a].key != p0[i + n].key); }
+                    }
+                    lemma_wsum_same_entries(p1, rem(m0.remove(k), p0, n), m1.remove(k));
+                    lemma_wsum_nonneg(p1, m1.remove(k));
+                    lemma_wsum_bound(p1, m1.remove(k));
+                }
+
+                self.entry_count += 1;
+                Self::saturating_sub_from_total_weight(self, victims_weight);
+                Self::saturating_add_to_total_weight(self, policy_weight as u64);
+
+                if self.should_enable_frequency_sketch() {
+                    self.enable_frequency_sketch();
+                }
+            }
+            AdmissionResult::Rejected => {
+                // Remove the candidate from the cache.
+                cache.remove(&key);
+            }
+        }
+    }
+
+    pub fn insert(&mut self, key: K, value: V)
+        requires old(self).wf(), old(self).small(), w_wf(old(self).cache@, old(self).weigher),
+        ensures final(self).wf(), final(self).same_cfg(old(self)),
+            // C01: the key now maps to the new value or to nothing; every other key is untouched or gone
+            final(self).cache@.contains_key(kid(&key)) ==> final(self).cache@[kid(&key)].value == value,
+            forall|k: KeyId| #[trigger] final(self).cache@.contains_key(k) && k != kid(&key) ==> old(self).cache@.contains_key(k) && final(self).cache@[k] == old(self).cache@[k],
+    {
+        let timestamp = self.evict_expired_if_needed();
+        self.evict_lru_entries();
+        let policy_weight = weigh(&mut self.weigher, &key, &value);
+        let key = Rc::new(key);
+        let entry = ValueEntry::new(value, policy_weight);
+        let ghost m1 = self.cache@;
+        proof {
+            let k = kid_rc(key);
+            if m1.contains_key(k) {
+                assert(m1.insert(k, entry).insert(k, m1[k]) =~= m1);
+            } else {
+                assert(m1.insert(k, entry).remove(k) =~= m1);
+            }
+        }
+
+        if let Some(old_entry) = self.cache.insert(Rc::clone(&key), entry) {
+            self.handle_update(key, timestamp, policy_weight, old_entry);
+        } else {
+            let hash = self.hash(&key);
+            self.handle_insert(key, hash, policy_weight, timestamp);
+        }
+    }
+
+    // Returns (u64, u64) where (evicted_entry_count, evicted_policy_weight).
+    #[inline]
+    fn remove_expired_wo(&mut self, batch_size: usize, now: Instant) -> (r: (u64, u64))
+        requires
+            old(self).cfg_ok(), old(self).small(),
+            old(self).deques.window@.len() == 0 && old(self).deques.protected@.len() == 0,
+            core_wf(old(self).cache@, old(self).deques.probation@, old(self).deques.write_order@, old(self).time_to_live.is_some()),
+            ts_wf(old(self).cache@, old(self).sp_has_expiry(), old(self).time_to_live.is_some()),
+            batch_size <= 1000,
+        ensures
+            final(self).same_cfg(old(self)), final(self).entry_count == old(self).entry_count, final(self).weighted_size == old(self).weighted_size,
+            final(self).frequency_sketch == old(self).frequency_sketch, final(self).frequency_sketch_enabled == old(self).frequency_sketch_enabled,
+            final(self).weigher == old(self).weigher,
+            final(self).deques.window@.len() == 0 && final(self).deques.protected@.len() == 0,
+            core_wf(final(self).cache@, final(self).deques.probation@, final(self).deques.write_order@, final(self).time_to_live.is_some()),
+            ts_wf(final(self).cache@, final(self).sp_has_expiry(), final(self).time_to_live.is_some()),
+            // C10 / C03: the returned pair is exactly what was taken out
+            r.0 == old(self).deques.probation@.len() - final(self).deques.probation@.len(),
+            r.1 == wsum(old(self).deques.probation@, old(self).cache@) - wsum(final(self).deques.probation@, final(self).cache@),
+            forall|k: KeyId| #[trigger] final(self).cache@.contains_key(k) ==> old(self).cache@.contains_key(k) && final(self).cache@[k] == old(self).cache@[k],
+    {
+        let mut evicted_entry_count = 0u64;
+        let mut evicted_policy_weight = 0u64;
+        let time_to_live = &self.time_to_live;
+        let ghost m0 = self.cache@; let ghost p0 = self.deques.probation@; let ghost ttl = self.time_to_live.is_some();
+        proof { lemma_wsum_bound(p0, m0); lemma_wsum_nonneg(p0, m0); }
+
+        for _ in 0..batch_size
+            invariant
+                ttl == self.time_to_live.is_some(), self.time_to_live == old(self).time_to_live, self.time_to_idle == old(self).time_to_idle,
+                self.max_capacity == old(self).max_capacity, self.build_hasher == old(self).build_hasher,
+                *time_to_live == old(self).time_to_live,
+                time_to_live.is_some() ==> dur_ns(time_to_live.unwrap()) <= max_dur_ns(),
+                self.entry_count == old(self).entry_count, self.weighted_size == old(self).weighted_size,
+                self.frequency_sketch == old(self).frequency_sketch, self.frequency_sketch_enabled == old(self).frequency_sketch_enabled,
+                self.weigher == old(self).weigher,
+                self.deques.window@.len() == 0 && self.deques.protected@.len() == 0,
+                core_wf(self.cache@, self.deques.probation@, self.deques.write_order@, ttl),
+                ts_wf(self.cache@, old(self).sp_has_expiry(), ttl),
+                evicted_entry_count == p0.len() - self.deques.probation@.len(),
+                evicted_policy_weight == wsum(p0, m0) - wsum(self.deques.probation@, self.cache@),
+                wsum(self.deques.probation@, self.cache@) >= 0, wsum(p0, m0) <= p0.len() * 0xFFFF_FFFF, p0.len() < 0xFFFF_FFFF,
+                forall|k: KeyId| #[trigger] self.cache@.contains_key(k) ==> m0.contains_key(k) && self.cache@[k] == m0[k],
+        {
+            let key = self
+                .deques
+                .write_order
+                .peek_front()
+                .and_then(|node| -> (o: Option<Option<Rc<K>>>) ensures o.is_some() ==> o.unwrap().is_some() && o.unwrap().unwrap() == node.element.key {
+                    if Self::is_expired_entry_wo(time_to_live, node, now) {
+                        Some(Some(Rc::clone(&node.element.key)))
+                    } else {
+                        None
+                    }
+                })
+                .unwrap_or_default();
+
+            if key.is_none() {
+                break;
+            }
+
+            let key = key.unwrap();
+            proof {
+                let m = self.cache@; let p = self.deques.probation@; let wo = self.deques.write_order@;
+                let kk = kid_rc(key);
+                assert(wo.len() > 0 && wo[0].key == kk);
+                assert(m.contains_key(kk));
+                lemma_pos_of_key(m, p, wo, ttl, kk);
+                let i = pos_of_key(p, kk);
+                lemma_remove_at(m, p, wo, ttl, i);
+                if ttl { lemma_index_of_id(wo, 0); assert(m[kk].wo() == Some(wo[0].id)); }
+                lemma_wsum_nonneg(p.remove(i), m.remove(kk));
+            }
+
+            if let Some(mut entry) = self.cache.remove(&key) {
+                let weight = entry.policy_weight();
+                self.deques.unlink_ao(&mut entry);
+                Deques::unlink_wo(&mut self.deques.write_order, &mut entry);
+                evicted_entry_count += 1;
+                evicted_policy_weight = evicted_policy_weight.saturating_add(weight as u64);
+            } else {
+                self.deques.write_order.pop_front();
+            }
+        }
+
+        (evicted_entry_count, evicted_policy_weight)
     }
 }
 }
